@@ -1,5 +1,6 @@
 import CuriesVerif.Properties.C06
 import CuriesVerif.Model.Discovery
+import CuriesVerif.Lemmas.Discover
 
 /-!
 # C19 — discover returns a valid converter that compresses the URIs it learned from
@@ -189,7 +190,7 @@ theorem mem_records (alnum : Nat → Bool) (known : Str → Bool) (delims : List
   unfold Discovery.records at hr
   simp only at hr
   generalize hkept : ((isort (fun (a b : Str × List Str) => strLe a.1 b.1) (prefixToLuids alnum known delims uris)).filter
-    fun g => match cutoff with | none => true | some c => decide (c ≤ g.2.length)).map (·.1) = kept at hr
+    fun g => keepBy cutoff g.2.length).map (·.1) = kept at hr
   obtain ⟨i, hi, rfl⟩ := List.mem_iff_getElem.mp hr
   have hi2 : i < kept.length := by
     simp only [List.length_zipWith, List.length_range, Nat.min_self] at hi; exact hi
@@ -198,7 +199,7 @@ theorem mem_records (alnum : Nat → Bool) (known : Str → Bool) (delims : List
   show kept[i] ∈ _
   have hsub : ∀ x, x ∈ kept → x ∈ ((isort (fun (a b : Str × List Str) => strLe a.1 b.1)
       (prefixToLuids alnum known delims uris)).filter
-      fun g => match cutoff with | none => true | some c => decide (c ≤ g.2.length)).map (·.1) := by
+      fun g => keepBy cutoff g.2.length).map (·.1) := by
     intro x hx; rw [hkept]; exact hx
   obtain ⟨g, hg, he⟩ := List.mem_map.mp (hsub _ (List.getElem_mem hi2))
   have hg' := (List.mem_filter.mp hg).1
@@ -268,7 +269,7 @@ theorem mem_records_complete (alnum : Nat → Bool) (known : Str → Bool) (deli
   unfold Discovery.records
   simp only
   generalize hkept : ((isort (fun (a b : Str × List Str) => strLe a.1 b.1) (prefixToLuids alnum known delims uris)).filter
-    fun g => match (none : Option Nat) with | none => true | some c => decide (c ≤ g.2.length)).map (·.1) = kept
+    fun g => keepBy none g.2.length).map (·.1) = kept
   have hk' : k ∈ kept := by
     rw [← hkept]
     obtain ⟨g, hg, he⟩ := List.mem_map.mp hk
@@ -347,6 +348,101 @@ where
       have hi := isLongest_of_longest hl
       simp only [Option.map_some, Option.isSome_some, true_iff]
       exact ⟨kr.2, hi.1, kr.1, hi.2.1, hi.2.2.1⟩
+
+/-- **C19 (determinism).** `discover` is a function of the *set* of input URIs: two inputs with the
+same elements — in any order, with any repetitions — produce the same records, hence the same
+converter; for every delimiter list, cutoff, metaprefix and pre-existing converter. -/
+theorem C19_perm_dup (alnum : Nat → Bool) (conv : Option Conv) (delims : List Str) (cutoff : Option Nat) (mp : Str)
+    (uris₁ uris₂ : List Str) (hset : ∀ u, u ∈ uris₁ ↔ u ∈ uris₂) :
+    Discovery.records alnum (knownOf conv) delims cutoff mp uris₁ =
+      Discovery.records alnum (knownOf conv) delims cutoff mp uris₂ ∧
+    discover alnum conv delims cutoff mp uris₁ = discover alnum conv delims cutoff mp uris₂ := by
+  have h₁ := tableInv_prefixToLuids alnum (knownOf conv) delims uris₁
+  have h₂ := tableInv_prefixToLuids alnum (knownOf conv) delims uris₂
+  have hR : (fun k l => ∃ v ∈ uris₁, Contributes alnum (knownOf conv) (if delims.isEmpty then defaultDelimiters else delims) v k l)
+      = (fun k l => ∃ v ∈ uris₂, Contributes alnum (knownOf conv) (if delims.isEmpty then defaultDelimiters else delims) v k l) := by
+    funext k l
+    apply propext
+    constructor
+    · rintro ⟨v, hv, hc⟩; exact ⟨v, (hset v).mp hv, hc⟩
+    · rintro ⟨v, hv, hc⟩; exact ⟨v, (hset v).mpr hv, hc⟩
+  rw [hR] at h₁
+  have hrec : Discovery.records alnum (knownOf conv) delims cutoff mp uris₁ =
+      Discovery.records alnum (knownOf conv) delims cutoff mp uris₂ := by
+    unfold Discovery.records
+    simp only
+    rw [kept_eq_summary cutoff (prefixToLuids alnum (knownOf conv) delims uris₁),
+      kept_eq_summary cutoff (prefixToLuids alnum (knownOf conv) delims uris₂),
+      sorted_summary_eq _ _ _ h₁ h₂]
+  refine ⟨hrec, ?_⟩
+  unfold discover
+  rw [hrec]
+
+/-- **C19 (cutoff).** A URI prefix is kept exactly when at least `cutoff` *distinct* identifiers were
+seen for it (every collected prefix is kept when there is no cutoff). -/
+theorem C19_cutoff (alnum : Nat → Bool) (known : Str → Bool) (delims : List Str) (cutoff : Option Nat) (mp : Str)
+    (uris : List Str) (k : Str) :
+    (∃ r ∈ Discovery.records alnum known delims cutoff mp uris, r.uri = k) ↔
+      ∃ ls, (k, ls) ∈ prefixToLuids alnum known delims uris ∧ keepBy cutoff ls.length = true := by
+  unfold Discovery.records
+  simp only
+  generalize hkept : ((isort (fun (a b : Str × List Str) => strLe a.1 b.1) (prefixToLuids alnum known delims uris)).filter
+    fun g => keepBy cutoff g.2.length).map (·.1) = kept
+  have hmem : ∀ x, x ∈ kept ↔ ∃ ls, (x, ls) ∈ prefixToLuids alnum known delims uris ∧
+      keepBy cutoff ls.length = true := by
+    intro x
+    rw [← hkept]
+    simp only [List.mem_map, List.mem_filter, mem_isort]
+    constructor
+    · rintro ⟨g, ⟨hg, hp⟩, rfl⟩
+      exact ⟨g.2, hg, hp⟩
+    · rintro ⟨ls, hg, hp⟩
+      exact ⟨(x, ls), ⟨hg, hp⟩, rfl⟩
+  rw [← hmem]
+  constructor
+  · rintro ⟨r, hr, rfl⟩
+    obtain ⟨i, hi, rfl⟩ := List.mem_iff_getElem.mp hr
+    have hi2 : i < kept.length := by
+      simp only [List.length_zipWith, List.length_range, Nat.min_self] at hi; exact hi
+    rw [List.getElem_zipWith]
+    exact List.getElem_mem hi2
+  · intro hk
+    obtain ⟨i, hi, he⟩ := List.mem_iff_getElem.mp hk
+    have hi2 : i < (List.zipWith (fun i up => ({ pfx := mp ++ natStr (i + 1), uri := up } : Record))
+        (List.range kept.length) kept).length := by
+      simp only [List.length_zipWith, List.length_range, Nat.min_self]; exact hi
+    exact ⟨_, List.getElem_mem hi2, by rw [List.getElem_zipWith]; exact he⟩
+
+/-- **C19 (numbering).** The records are named `metaprefix1`, `metaprefix2`, … in sorted URI-prefix
+order: the `i`-th record (from 0) is named `metaprefix ++ str(i+1)`, and the URI prefixes are in
+ascending order. -/
+theorem C19_names (alnum : Nat → Bool) (known : Str → Bool) (delims : List Str) (cutoff : Option Nat) (mp : Str)
+    (uris : List Str) :
+    (∀ i (hi : i < (Discovery.records alnum known delims cutoff mp uris).length),
+      ((Discovery.records alnum known delims cutoff mp uris)[i]).pfx = mp ++ natStr (i + 1)) ∧
+    ((Discovery.records alnum known delims cutoff mp uris).map (·.uri)).Pairwise (fun a b => a ≤ b) := by
+  unfold Discovery.records
+  simp only
+  generalize hkept : ((isort (fun (a b : Str × List Str) => strLe a.1 b.1) (prefixToLuids alnum known delims uris)).filter
+    fun g => keepBy cutoff g.2.length).map (·.1) = kept
+  constructor
+  · intro i hi
+    rw [List.getElem_zipWith]
+    simp
+  · have huri : (List.zipWith (fun i up => ({ pfx := mp ++ natStr (i + 1), uri := up } : Record))
+        (List.range kept.length) kept).map (·.uri) = kept := by
+      apply List.ext_getElem
+      · simp
+      · intro i h1 h2
+        simp
+    rw [huri, ← hkept]
+    have hs := isort_sorted (fun (a b : Str × List Str) => strLe a.1 b.1)
+      (fun a b => by simp only [strLe, decide_eq_true_eq]; exact Std.le_total (a := a.1) (b := b.1))
+      (fun a b c h1 h2 => by simp only [strLe, decide_eq_true_eq] at *; exact Std.le_trans h1 h2)
+      (prefixToLuids alnum known delims uris)
+    have hs2 := (hs.sublist (List.filter_sublist (p := fun g => keepBy cutoff g.2.length)))
+    rw [List.pairwise_map]
+    exact hs2.imp (fun h => by simpa [strLe] using h)
 
 /-- **C19 is false without the GitHub exclusion (known finding F9).** The URI
 `https://github.com/a/b/issues/12` ends in the alphanumeric identifier `12` after `/`, yet nothing
